@@ -115,7 +115,7 @@ pub fn check_case(case: &Case, st: &mut Stats) -> Result<(), String> {
     let (lon, lat, class) = case.src.lonlat()?;
     let res = case.res;
     let p = vec_of_lonlat(lon, lat);
-    let (id, c, branch) = lookup(lon, lat, res)?;
+    let (id, _c, branch) = lookup(lon, lat, res)?;
     let v = contain::contains(id, p)?;
     if !v.contained {
         return Err(format!(
